@@ -35,10 +35,70 @@ var simDebug = os.Getenv("VERIF_DEBUG") != ""
 type simConn struct {
 	net.Conn
 	l, r net.Addr
+
+	// net.Pipe serialises writers with a sync.Mutex that it holds while a write is blocked on the
+	// reader. A goroutine waiting for a mutex is not durably blocked, so a second gobgp writer
+	// (e.g. sendNotification while sendMessageloop is stuck behind a slow reader) would keep the
+	// synctest bubble from ever becoming idle, and - unlike a TCP socket - would ignore its write
+	// deadline. This wrapper serialises writers with a channel instead and honours the deadline
+	// while waiting, which is what a kernel socket does.
+	wsem   chan struct{}
+	closed chan struct{}
+	once   sync.Once
+	dmu    sync.Mutex
+	wdl    time.Time
+}
+
+func newSimConn(c net.Conn, l, r net.Addr) *simConn {
+	return &simConn{Conn: c, l: l, r: r, wsem: make(chan struct{}, 1), closed: make(chan struct{})}
 }
 
 func (p *simConn) LocalAddr() net.Addr  { return p.l }
 func (p *simConn) RemoteAddr() net.Addr { return p.r }
+
+func (p *simConn) SetWriteDeadline(t time.Time) error {
+	p.dmu.Lock()
+	p.wdl = t
+	p.dmu.Unlock()
+	return p.Conn.SetWriteDeadline(t)
+}
+
+func (p *simConn) SetDeadline(t time.Time) error {
+	p.dmu.Lock()
+	p.wdl = t
+	p.dmu.Unlock()
+	return p.Conn.SetDeadline(t)
+}
+
+func (p *simConn) Close() error {
+	p.once.Do(func() { close(p.closed) })
+	return p.Conn.Close()
+}
+
+func (p *simConn) Write(b []byte) (int, error) {
+	p.dmu.Lock()
+	dl := p.wdl
+	p.dmu.Unlock()
+	var expired <-chan time.Time
+	if !dl.IsZero() {
+		d := time.Until(dl)
+		if d <= 0 {
+			return 0, os.ErrDeadlineExceeded
+		}
+		t := time.NewTimer(d)
+		defer t.Stop()
+		expired = t.C
+	}
+	select {
+	case p.wsem <- struct{}{}:
+	case <-expired:
+		return 0, os.ErrDeadlineExceeded
+	case <-p.closed:
+		return 0, io.ErrClosedPipe
+	}
+	defer func() { <-p.wsem }()
+	return p.Conn.Write(b)
+}
 
 // SyscallConn fails softly: gobgp's sockopt helpers (TTL, MSS) log the error and go on, exactly
 // as they would for a socket type they cannot handle.
@@ -51,7 +111,7 @@ func simTCPAddr(ip string, port uint16) net.Addr {
 // simPipe returns (gobgp side, speaker side).
 func simPipe(local, remote string, rport uint16) (net.Conn, net.Conn) {
 	a, b := net.Pipe()
-	return &simConn{Conn: a, l: simTCPAddr(local, 179), r: simTCPAddr(remote, rport)}, b
+	return newSimConn(a, simTCPAddr(local, 179), simTCPAddr(remote, rport)), b
 }
 
 // ---------------------------------------------------------------- server under test
